@@ -837,9 +837,19 @@ func (vm *VM) xOpSetupCatch() {
 		}
 	}
 
+	// Either OpSetLocal, OpDefineLocal or OpPop is generated by compiler to
+	// handle error. The catch identifier is a new variable: if the compiler
+	// emitted OpSetLocal, do not let it write through the pointer of a captured
+	// variable of a dead block (or of the previous iteration) left in the slot.
+	if vm.curInsts[vm.ip+1] == OpSetLocal {
+		localIndex := int(vm.curInsts[vm.ip+2])
+		vm.stack[vm.curFrame.basePointer+localIndex] = value
+		vm.ip += 2
+		return
+	}
+
 	vm.stack[vm.sp] = value
 	vm.sp++
-	//Either OpSetLocal or OpPop is generated by compiler to handle error
 }
 
 func (vm *VM) xOpSetupFinally() {
